@@ -24,7 +24,7 @@ func (c *PidSpeedCurve) Evaluate() (value int, err error) {
 	measured, err = sensor.GetValue()
 	if err != nil {
 		ui.Warning("Curve %s: Error getting sensor value: %v", c.Config.ID, err)
-		return c.Value, err
+		return c.CurrentValue(), err
 	}
 	pidTarget := c.Config.PID.SetPoint
 
